@@ -29,6 +29,7 @@ import gzip
 import os
 import random
 import tempfile
+import unicodedata
 from collections import Counter
 
 from gvmon import dbdump
@@ -76,7 +77,13 @@ RULE = ("GFF3 annotation graphs: DAGs of 1-4 layers and <= 12 lines, every line 
         "FeatureDB(dbfn, pragmas=...); 1 of 5 as create_db + update; all relation sets must coincide and agree with the model.  "
         "'line ends': one graph, 2 line orders, written with LF, CRLF and bare CR after every line (drawn sequence), given as a "
         "path (2 of 4), via from_string (1 of 4) or as a gzip file (1 of 4; LF and CRLF only), 35% with a '##gff-version 3' line "
-        "in front, 25% without terminator after the last line; all relation sets must coincide and agree with the model")
+        "in front, 25% without terminator after the last line; all relation sets must coincide and agree with the model.  "
+        "'ids not in normal form C': 1-3 ids / Parent values (features WITH children first) are renamed to texts that Unicode "
+        "normalisation would change - a letter followed by a combining mark ('re' + U+0301 + 'gion'), two combining marks in "
+        "non-canonical order, conjoining Hangul jamo, ANGSTROM / OHM / KELVIN SIGN, a CJK compatibility ideograph - and in 1 of 2 "
+        "graphs one feature with children exists in BOTH spellings (composed and decomposed) as two features, each named as "
+        "Parent by >= 1 line (some lines name both); 3 line orders, path / from_string, ':memory:' / file; the expected ids and "
+        "relatives are those of the INPUT text, code point for code point")
 REQUIRED = ["imports", "children()/parents() calls compared with the model", "relation rows compared",
             "level-2 rows compared", "argument-composition queries compared", "iter_by_parent_childs groups compared",
             "line-order pairs with identical relation sets", "dangling Parent values (no error, no phantom)",
@@ -129,7 +136,13 @@ REQUIRED = ["imports", "children()/parents() calls compared with the model", "re
             "line ends: pairs of imports (bare CR against LF or CRLF) with identical relation sets",
             "line ends: pairs of imports (other line terminator) with identical relation sets",
             "line ends: imports of a file with a '##gff-version 3' line in front",
-            "line ends: imports of a file whose last line has no terminator"]
+            "line ends: imports of a file whose last line has no terminator",
+            "non-NFC ids: stored features whose id (taken from the input text) is not in normal form C",
+            "non-NFC ids: non-empty children() results of a feature whose id is not in normal form C compared, level=1",
+            "non-NFC ids: non-empty children() results of a feature whose id is not in normal form C compared, level=2",
+            "non-NFC ids: non-empty parents() results holding a feature whose id is not in normal form C compared",
+            "non-NFC ids: imports holding the composed and the decomposed spelling of one name as two features",
+            "non-NFC ids: children() results of the two spellings of one name that differ from each other, both as the model says"]
 REQUIRED_CLASSES = ["ids=word", "ids=hostile", "Parent=comma list", "Parent=repeated keys", "order=children first",
                     "graph: multi-parent", "graph: level-2 pairs", "graph: dangling Parent", "graph: shortcut (level 1 and 2)",
                     "graph: two level-2 paths to one feature", "graph: wide (> 1000 direct children)",
@@ -148,7 +161,10 @@ REQUIRED_CLASSES = ["ids=word", "ids=hostile", "Parent=comma list", "Parent=repe
                     "pragmas: judged through FeatureDB(dbfn, pragmas=...)", "pragmas: dictionary without the library's defaults",
                     "pragma: foreign_keys", "pragma: synchronous", "pragma: journal_mode", "pragma: cache_size",
                     "line ends: one file under LF, CRLF and bare CR", "line ends: given as a path",
-                    "line ends: given via from_string", "line ends: given as a gzip file (LF and CRLF only)"]
+                    "line ends: given via from_string", "line ends: given as a gzip file (LF and CRLF only)",
+                    "ids=non-NFC", "non-NFC id: letter + combining mark", "non-NFC id: conjoining Hangul jamo",
+                    "non-NFC id: ANGSTROM SIGN", "non-NFC id: OHM SIGN", "non-NFC id: KELVIN SIGN",
+                    "non-NFC ids: composed and decomposed spelling as two features, each with children"]
 ASSUMPTIONS = [
     "the reference model gvmon/models/hierarchy.py is a faithful reading of the statement: relatives are stored features "
     "only; level 2 = composition of two Parent edges; level None = union",
@@ -169,6 +185,10 @@ ASSUMPTIONS = [
     "generated id by the text of its line",
     "Parent=a,b and Parent=a;Parent=b name the same two parents whatever spelling the rest of the file uses",
     "ids are compared as exact strings (letter case, leading zeros, '%' and '_' are ordinary characters)",
+    "ids are opaque text: two ids that are canonically equivalent under Unicode normalisation but differ in code points "
+    "('\u00e9' / 'e' + U+0301, precomposed Hangul / conjoining jamo, U+00C5 / ANGSTROM SIGN) are two ids; a Parent value names "
+    "the feature whose ID has exactly its code points; the stored id is the ID text of the line, unnormalised (expected ids "
+    "and relatives are computed from the input text, never from what the database returns)",
     "Parent lists do not repeat a value; graphs are acyclic",
     "the verbose argument (not given, False, True, 'debug') only controls logging: the relations are the same under all of them",
     "lines added by FeatureDB.update(make_backup=False) are GFF3 input like the lines given to create_db: after the call every "
@@ -443,6 +463,7 @@ def one_import(ctx, case, oi, order, nodes, rel, lower, upper, verbose="absent",
     ntext = Counter(anon.values())
     twin = {i: t for i, t in anon.items() if ntext[t] > 1}
     minority = mixed_minority(nodes)
+    nonnfc = {i for i in byid if unicodedata.normalize("NFC", i) != i} if case.get("klass") == "nfc" else set()
     full_order = order
     T = tag(case)
     src = src2 = nsrc = None
@@ -681,6 +702,12 @@ def one_import(ctx, case, oi, order, nodes, rel, lower, upper, verbose="absent",
                         ctx.mon("non-empty relative sets compared")
                         if anon:
                             observe_idless(ctx, name, level, x, exp, anon, twin)
+                        if nonnfc:
+                            if name == "children" and x in nonnfc:
+                                ctx.mon("non-NFC ids: non-empty children() results of a feature whose id is not in normal form C "
+                                        "compared, level=%r" % (level,))
+                            if name == "parents" and nonnfc & set(exp):
+                                ctx.mon("non-NFC ids: non-empty parents() results holding a feature whose id is not in normal form C compared")
                     if level is None:
                         ctx.mon("shortcut relatives (level 1 and level 2 of one feature) returned once for level=None",
                                 len(model(x, 1) & model(x, 2)))
@@ -691,6 +718,16 @@ def one_import(ctx, case, oi, order, nodes, rel, lower, upper, verbose="absent",
                                     len(late2[x][0]))
                             ctx.mon("wide: level-2 relatives reached through a child ranked >= 1000 by id compared",
                                     len(late2[x][1]))
+        if nonnfc:
+            ctx.mon("non-NFC ids: stored features whose id (taken from the input text) is not in normal form C", len(nonnfc))
+            for a in sorted(nonnfc):
+                b = unicodedata.normalize("NFC", a)
+                if b in byid:
+                    ctx.mon("non-NFC ids: imports holding the composed and the decomposed spelling of one name as two features")
+                    for level in LEVELS:
+                        if rel.children(a, level) != rel.children(b, level):
+                            ctx.mon("non-NFC ids: children() results of the two spellings of one name that differ from each other, "
+                                    "both as the model says")
         # -- several generators of this FeatureDB alive at once ------------------------------------------------
         if not interleaved(ctx, case, db, q, rel, byid, order, text):
             return None
@@ -965,6 +1002,12 @@ def classify(ctx, case):
     if klass == "confusable":
         ctx.classes["confusable ids: " + case["family"]] += 1
         return True
+    if klass == "nfc":
+        for fl in case["flavours"]:
+            ctx.classes["non-NFC id: " + fl] += 1
+        if case.get("twins"):
+            ctx.classes["non-NFC ids: composed and decomposed spelling as two features, each with children"] += 1
+        return True
     if klass == "verbose":
         ctx.classes["verbose: one file under all four values (not given / False / True / 'debug')"] += 1
         return lvl2
@@ -1029,6 +1072,7 @@ def account(ctx, case):
     cls = {None: "line orders imported", "idless": "line orders imported (lines without ID attribute)",
            "mixed": "line orders imported (mixed spelling of several parents)",
            "confusable": "line orders imported (look-alike ids)",
+           "nfc": "line orders imported (ids not in Unicode normal form C)",
            "verbose": "imports (line order x verbose value)",
            "update": "imports (line order x verbose value; create_db + FeatureDB.update)",
            "history": "imports judged after a failed import / around a nested import",
@@ -1246,6 +1290,22 @@ def run(ctx):
                 "orders": G.sample_orders(rng, n, 3)[-2:] if i % 2 else G.sample_orders(rng, n, 2), "eols": eols,
                 "header": rng.random() < 0.35, "last": rng.random() < 0.75, "nqueries": 2,
                 "db": "file" if rng.random() < 0.15 else "memory", "input": how}
+        execute(ctx, case)
+        account(ctx, case)
+    # 11. ids (and the Parent values naming them) that are not in Unicode normal form C; both spellings of one name as two features
+    for i in range(ctx.budget(90, 1800)):
+        g = G.graph(rng, max_nodes=10)
+        for _ in range(6):
+            if len(g["nodes"]) < 2 or not any(n["parents"] for n in g["nodes"]):
+                g = G.graph(rng, max_nodes=10)
+        made = G.make_nonnfc(rng, g, twins=bool(i % 2))
+        if not made:
+            ctx.mon("generator: graphs in which no id could be renamed (not imported)")
+            continue
+        n = len(g["nodes"])
+        case = {"kind": "graph", "klass": "nfc", "ids": "non-NFC", "flavours": made["flavours"], "twins": made["twins"], "graph": g,
+                "qseed": rng.randrange(10 ** 9), "orders": G.sample_orders(rng, n, 3), "nqueries": 3,
+                "db": "file" if rng.random() < 0.15 else "memory", "input": "string" if rng.random() < 0.2 else "path"}
         execute(ctx, case)
         account(ctx, case)
     ctx.mon("make_query contract evaluations", contracts.EVALS["helpers.make_query"])
